@@ -19,11 +19,12 @@ pub static PROP: Prop = Prop {
     fixed,
     replay: Some(replay),
     breadcrumb: false,
+    fuzz: &[Fuzz { target: "choice", choice: true, runs: 300000, max_len: 1040 }],
 };
 
 fn budget(t: Tier) -> Budget {
     Budget {
-        cases: t.pick(250_000, 5_000_000),
+        cases: t.pick(1_500_000, 20_000_000),
         max_len: 260,
         shards: 16,
         dual_profile: false,
